@@ -177,10 +177,24 @@ impl ListenerInfo {
 
 	/// Returns the interpolated orientation between the previous and current
 	/// orientation of the listener.
+	///
+	/// An orientation that is not a rotation because it has no usable length
+	/// (like the zero quaternion) counts as the identity orientation.
 	pub fn interpolated_orientation(self, amount: f32) -> mint::Quaternion<f32> {
-		let orientation: Quat = self.orientation.into();
-		let previous_orientation: Quat = self.previous_orientation.into();
+		let orientation = rotation_or_identity(self.orientation.into());
+		let previous_orientation = rotation_or_identity(self.previous_orientation.into());
 		previous_orientation.lerp(orientation, amount).into()
+	}
+}
+
+/// Returns the quaternion unchanged if it can be normalized, otherwise
+/// (squared length zero, subnormal, infinite or NaN) the identity.
+#[must_use]
+fn rotation_or_identity(orientation: Quat) -> Quat {
+	if orientation.length_squared().is_normal() {
+		orientation
+	} else {
+		Quat::IDENTITY
 	}
 }
 
